@@ -108,6 +108,13 @@ def _setup(resname, position, neutral):
                 deb.score_dihedral_angle(r0, k)
                 deb.set_dihedral_angle(r0, k, start + 5.0)
                 deb.set_dihedral_angle(r0, k, start)
+            else:
+                # a torsion whose fourth atom is a hydrogen that does not exist yet: scoring it is legal (its rotating
+                # group is empty for now); whatever the object remembers from this must not survive hydrogen addition
+                try:
+                    deb.score_dihedral_angle(r0, k)
+                except (KeyError, ValueError, TypeError, AttributeError):
+                    pass
         _WARMED[id(bm)] = deb
     bm.add_hydrogens()
     bm.update_internal_bonds()
